@@ -6,7 +6,8 @@ cd "$(dirname "$0")"
 export GOFLAGS=-mod=mod GOPROXY=off GOSUMDB=off GOTOOLCHAIN=local
 W=$(mktemp -d /var/tmp/verif-setup-XXXXXX) || exit 1
 trap 'rm -rf "$W"' EXIT
-for e in importsim chrootsim ordersim; do
+for e in importsim chrootsim ordersim compilesim; do
   ./build.sh "$W/$e" "$e" >/dev/null || exit 1
 done
+./build.sh "$W/race" compilesim -race >/dev/null || exit 1
 echo setup ok
